@@ -74,13 +74,12 @@ def canonName (f : String) : String :=
   | ["truncation", "check", d, s] => "truncation_check_" ++ canonTy d ++ "_" ++ canonTy s
   | _ => f
 
-/-- `bool` as destination or source has no translated instantiation (it is not one of the modelled integer types): the
-specification itself (`truncSpec` with the one-bit unsigned type) is the model there. -/
+/-- `bool` as SOURCE has no translated instantiation (the driver's tables take integers): every `bool` is representable in
+every integer type, the specification itself is the model there.  (`bool` as destination is translated: `truncation_check_b_*`.) -/
 def boolTy : IntTy := ⟨false, 1⟩
 
 def lookup1 (f : String) : Option (Int → String) :=
   match f.splitOn "_" with
-  | ["truncation", "check", "b", _] => some (fun x => showOpt (.ok (Fcppt.C06.truncSpec boolTy x)))
   | ["truncation", "check", d, "b"] =>
     if ["u8", "u16", "u32", "u64", "i8", "i16", "i32", "i64"].contains d then
       some (fun x => if boolTy.InRange x then showOpt (.ok (some x)) else "bad-op")
